@@ -112,6 +112,12 @@ type Machine struct {
 	allocOn      bool
 	maxSteps     int64
 	syncDepth    int
+	threads      []*ithread
+	curThread    *ithread
+	mainResume   chan struct{}
+	mainDepth    int
+	threadPanic  interface{}
+	killed       bool
 }
 
 type obsEntry struct {
@@ -286,8 +292,22 @@ func (m *Machine) global(g *ssa.Global) *Obj {
 	o.global = true
 	o.name = g.String()
 	m.globals[g] = o
+	// package os is not initialised (it talks to the runtime), but its error values are plain
+	// aliases of io/fs values, which are
+	if g.Pkg != nil && g.Pkg.Pkg.Path() == "os" {
+		if fsName, ok := osErrAlias[g.Name()]; ok {
+			if fp := m.prog.ImportedPackage("io/fs"); fp != nil {
+				if fg, ok := fp.Members[fsName].(*ssa.Global); ok {
+					m.ensureInit(fp)
+					o.v = copyVal(m.global(fg).v)
+				}
+			}
+		}
+	}
 	return o
 }
+
+var osErrAlias = map[string]string{"ErrInvalid": "ErrInvalid", "ErrPermission": "ErrPermission", "ErrExist": "ErrExist", "ErrNotExist": "ErrNotExist", "ErrClosed": "ErrClosed"}
 
 var initDeny = map[string]bool{"runtime": true, "reflect": true, "sync": true, "os": true, "syscall": true, "time": true, "fmt": true, "internal/reflectlite": true, "sync/atomic": true, "internal/cpu": true, "internal/godebug": true, "internal/poll": true, "internal/testlog": true, "math/rand": true, "math/big": true, "crypto/sha256": true, "crypto/sha512": true, "crypto/sha1": true, "crypto/md5": true, "crypto": true, "hash/crc32": true, "encoding/json": true, "log": true, "testing": true, "internal/bytealg": true, "internal/abi": true, "internal/runtime/maps": true, "crypto/rand": true, "crypto/internal/fips140/sha256": true, "crypto/internal/fips140/sha512": true, "crypto/internal/fips140/sha3": true}
 
